@@ -1,8 +1,8 @@
 (** C15 - temporal_dag is acyclic, sound and window-respecting.
     Occurrences "node_time" are modelled as [Occ n t]; [nbrs_t g x t] is G.neighbors(x, t) (successors when G is
     directed), i.e. (C02) the interactions present at t. *)
-From DynVerif Require Import Base Graph Annotate Paths.
-From DynVerif.proofs Require Import SnapInv PathFacts.
+From DynVerif Require Import Base Graph Annotate Paths IO Names.
+From DynVerif.proofs Require Import SnapInv PathFacts NameFacts.
 From Coq Require Import Sorting.Sorted.
 
 (** the DAG that temporal_dag returns for a proper window [ids] (strictly increasing, C15_window) *)
@@ -74,3 +74,22 @@ Example C15_example :
   end.
 Proof. vm_compute. auto. Qed.
 Print Assumptions C15_example.
+
+(** the textual names "<node>_<tid>" of the occurrences (the model above uses pairs [Occ n t]): for ARBITRARY text ids
+    -- underscores included -- the name determines the occurrence, temporal_dag's [name.rsplit("_",1)] recovers the
+    node and time_respecting_paths' split / re-join recovers (node, time); a root id without underscore is never an
+    occurrence name.  The decoder used before fix f2d9827 (text before the FIRST underscore) is right exactly for
+    underscore-free ids. *)
+Theorem C15_names_injective : forall n t n' t', occ_name n t = occ_name n' t' -> n = n' /\ t = t'.
+Proof. exact occ_name_inj. Qed.
+Print Assumptions C15_names_injective.
+Theorem C15_names_decode : forall n t, name_node (occ_name n t) = Some n /\ decode_name (occ_name n t) = Some (n, t).
+Proof. intros. split; [apply name_node_occ|apply decode_occ]. Qed.
+Print Assumptions C15_names_decode.
+Theorem C15_names_root : forall n t u, ~ In 95 u -> occ_name n t <> u.
+Proof. exact occ_name_not_plain. Qed.
+Print Assumptions C15_names_root.
+Theorem C15_names_first_underscore : forall n t,
+  (~ In 95 n -> name_node_first (occ_name n t) = n) /\ (In 95 n -> name_node_first (occ_name n t) <> n).
+Proof. intros. split; [apply name_node_first_ok|apply name_node_first_wrong]. Qed.
+Print Assumptions C15_names_first_underscore.
